@@ -58,6 +58,16 @@ pub proof fn lemma_sum_u64_nonneg(s: Seq<u64>)
     ensures spec_sum_u64(s) >= 0
     decreases s.len()
 { if s.len() > 0 { lemma_sum_u64_nonneg(s.drop_last()); } }
+pub proof fn lemma_sum_u64_lower(s: Seq<u64>, c: int)
+    requires forall|i: int| 0 <= i < s.len() ==> s[i] >= c
+    ensures spec_sum_u64(s) >= c * s.len()
+    decreases s.len()
+{
+    if s.len() > 0 {
+        lemma_sum_u64_lower(s.drop_last(), c);
+        assert(c * s.len() == c * (s.len() - 1) + c) by (nonlinear_arith);
+    }
+}
 /// `v.iter().sum()` on u64 (iterator adapters are outside Verus' std specs)
 #[verifier::external_body]
 pub fn vp_sum_u64(v: &Vec<u64>) -> (r: u64)
